@@ -876,3 +876,104 @@ Definition py_flatten (v : pyval) : res pyval :=
 (* fuel handed to translated self-recursive functions whose recursion depth is
    the nesting depth of their argument *)
 Definition py_fuel : nat := 64.
+
+(* ---------------------------------------------- C20: str methods (appended)
+   str.find, str.replace (with and without count), str.join, f-strings with
+   plain {expr} fields, re.sub(' +', ' ', s).  Text is a list of code points;
+   indices are code-point indices as in CPython. *)
+
+(* least index >= i (counting from i at the head of s) where p is a prefix *)
+Fixpoint find_from (p s : str) (i : Z) : option Z :=
+  if str_prefix p s then Some i
+  else match s with [] => None | _ :: s' => find_from p s' (i + 1) end.
+
+(* s.find(p, start): start is adjusted as CPython's ADJUST_INDICES does
+   (negative: + len, then clamped at 0; NOT clamped at len: a start beyond the
+   end gives -1 even for the empty pattern) *)
+Definition str_find_idx (s p : str) (start : Z) : Z :=
+  let n := zlen s in
+  let j := if start <? 0 then Z.max 0 (start + n) else start in
+  if n <? j then -1
+  else match find_from p (skipn (Z.to_nat j) s) j with Some i => i | None => -1 end.
+
+Definition str_find2 (v p st : pyval) : res pyval :=      (* v.find(p, st) *)
+  match v, p with
+  | VStr s, VStr q =>
+      match st with
+      | VNone => Ok (VInt (str_find_idx s q 0))
+      | _ => match as_index st with
+             | Some z => Ok (VInt (str_find_idx s q z))
+             | None => Raise TypeError
+             end
+      end
+  | VStr _, _ => Raise TypeError
+  | _, _ => Raise AttributeError
+  end.
+Definition str_find1 (v p : pyval) : res pyval := str_find2 v p VNone.
+
+(* s.replace(old, new[, count]).  [cnt = None]: no limit. *)
+Definition cnt_dec (c : option nat) : option (option nat) :=
+  match c with None => Some None | Some O => None | Some (S k) => Some (Some k) end.
+Fixpoint replace_ne (fuel : nat) (old new : str) (cnt : option nat) (s : str) : str :=
+  match fuel with
+  | O => s
+  | S f =>
+      match cnt_dec cnt with
+      | None => s
+      | Some cnt' =>
+          if str_prefix old s then new ++ replace_ne f old new cnt' (skipn (length old) s)
+          else match s with [] => [] | x :: s' => x :: replace_ne f old new cnt s' end
+      end
+  end.
+(* empty pattern: new is inserted before every character and at the end *)
+Fixpoint replace_empty (new : str) (cnt : option nat) (s : str) : str :=
+  match cnt_dec cnt with
+  | None => s
+  | Some cnt' => new ++ match s with [] => [] | x :: s' => x :: replace_empty new cnt' s' end
+  end.
+Definition str_replace_cnt (s old new : str) (cnt : option nat) : str :=
+  match old with
+  | [] => replace_empty new cnt s
+  | _ :: _ => replace_ne (S (length s)) old new cnt s
+  end.
+Definition str_replace2 (v old new : pyval) : res pyval :=   (* v.replace(old, new) *)
+  match v, old, new with
+  | VStr s, VStr o, VStr n => Ok (VStr (str_replace_cnt s o n None))
+  | VStr _, _, _ => Raise TypeError
+  | _, _, _ => Raise AttributeError
+  end.
+
+(* sep.join(iterable of str) *)
+Fixpoint join_strs (sep : str) (l : list pyval) : res str :=
+  match l with
+  | [] => Ok []
+  | VStr a :: l' =>
+      match l' with
+      | [] => Ok a
+      | _ :: _ => r <- join_strs sep l' ;; Ok (a ++ sep ++ r)
+      end
+  | _ :: _ => Raise TypeError
+  end.
+Definition str_join (sep it : pyval) : res pyval :=
+  match sep with
+  | VStr p => l <- py_iter it ;; r <- join_strs p l ;; Ok (VStr r)
+  | _ => Raise AttributeError
+  end.
+
+(* f'{a}{b}…' with plain fields: format(x, '') = str(x) for the modelled types *)
+Fixpoint py_fstr (l : list pyval) : res pyval :=
+  match l with
+  | [] => Ok (VStr [])
+  | x :: l' =>
+      a <- py_str x ;; b <- py_fstr l' ;;
+      match a, b with VStr u, VStr w => Ok (VStr (u ++ w)) | _, _ => Raise TypeError end
+  end.
+
+(* re.sub(' +', ' ', s): every maximal run of U+0020 becomes one space *)
+Fixpoint squeeze_spaces (s : str) : str :=
+  match s with
+  | [] => []
+  | c :: s' =>
+      if (c =? 32) && match s' with d :: _ => d =? 32 | [] => false end
+      then squeeze_spaces s' else c :: squeeze_spaces s'
+  end.
